@@ -617,6 +617,10 @@ func tamperJWS(sd, kind string, variant int) (string, int) {
 		var m map[string]interface{}
 
 		_ = json.Unmarshal(payload, &m)
+		if m == nil {
+			// the payload is not a JSON object (another deviation of the same operation)
+			m = map[string]interface{}{}
+		}
 
 		names := make([]string, 0, len(m))
 		for k := range m {
@@ -643,6 +647,9 @@ func tamperJWS(sd, kind string, variant int) (string, int) {
 		var h map[string]interface{}
 
 		_ = json.Unmarshal(hdr, &h)
+		if h == nil {
+			h = map[string]interface{}{}
+		}
 
 		switch variant % 3 {
 		case 0:
